@@ -4,6 +4,7 @@ import (
 	"fmt"
 	"go/token"
 	"go/types"
+	"os"
 	"sort"
 	"strings"
 
@@ -50,6 +51,7 @@ type MutAnalysis struct {
 	allFns     []*ssa.Function
 	freshMemo  map[string]bool
 	freshKnown map[string]bool
+	elemMemo   map[string]bool
 }
 
 // NewMutAnalysis prepares the analysis.
@@ -211,6 +213,11 @@ func (m *MutAnalysis) Mutations(fn *ssa.Function, seeds []ssa.Value, chain []str
 
 	derived := map[ssa.Value]bool{}
 	shallow := map[ssa.Value]bool{}
+	// nested: fresh containers whose elements are fresh containers of derived
+	// contents (a new slice of newly made filters): an element loaded from one
+	// is shallow, not derived.  A value that is also shallow or derived counts as that.
+	nested := map[ssa.Value]bool{}
+	isN := func(v ssa.Value) bool { return nested[v] && !shallow[v] && !derived[v] }
 	cells := map[ssa.Value]bool{}        // local cells holding derived values
 	shallowCells := map[ssa.Value]bool{} // local cells holding only fresh containers of derived contents
 	for _, s := range seeds {
@@ -230,6 +237,13 @@ func (m *MutAnalysis) Mutations(fn *ssa.Function, seeds []ssa.Value, chain []str
 			return false
 		}
 		set[v] = true
+		if dbg := os.Getenv("PDFVERIF_DEBUG_MUT"); dbg != "" && strings.Contains(fn.String(), dbg) {
+			kind := "shallow"
+			if fmt.Sprintf("%p", set) == fmt.Sprintf("%p", derived) {
+				kind = "derived"
+			}
+			fmt.Fprintf(os.Stderr, "MUT %s: %s %s = %v\n", fn.Name(), kind, v.Name(), v)
+		}
 		return true
 	}
 	rootCell := func(v ssa.Value) ssa.Value {
@@ -257,12 +271,18 @@ func (m *MutAnalysis) Mutations(fn *ssa.Function, seeds []ssa.Value, chain []str
 					if shallow[x.X] {
 						changed = mark(x, shallow) || changed
 					}
+					if isN(x.X) {
+						changed = mark(x, nested) || changed
+					}
 				case *ssa.ChangeType:
 					if isD(x.X) {
 						changed = mark(x, derived) || changed
 					}
 					if shallow[x.X] {
 						changed = mark(x, shallow) || changed
+					}
+					if isN(x.X) {
+						changed = mark(x, nested) || changed
 					}
 				case *ssa.Convert:
 					// conversions between slice types alias; string<->[]byte copy
@@ -275,7 +295,7 @@ func (m *MutAnalysis) Mutations(fn *ssa.Function, seeds []ssa.Value, chain []str
 					if isD(x.X) {
 						changed = mark(x, derived) || changed
 					}
-					if shallow[x.X] {
+					if shallow[x.X] || nested[x.X] {
 						changed = mark(x, shallow) || changed
 					}
 				case *ssa.ChangeInterface:
@@ -295,6 +315,9 @@ func (m *MutAnalysis) Mutations(fn *ssa.Function, seeds []ssa.Value, chain []str
 					}
 					if shallow[x.Tuple] && refLike(x.Type()) {
 						changed = mark(x, shallow) || changed
+					}
+					if isN(x.Tuple) && refLike(x.Type()) {
+						changed = mark(x, nested) || changed
 					}
 				case *ssa.IndexAddr:
 					if isD(x.X) {
@@ -332,11 +355,19 @@ func (m *MutAnalysis) Mutations(fn *ssa.Function, seeds []ssa.Value, chain []str
 						if shallow[x.X] && refLike(x.Type()) {
 							changed = mark(x, derived) || changed
 						}
+						// an element of a fresh container of derived contents is derived
+						if ia, isIA := x.X.(*ssa.IndexAddr); isIA && shallow[ia.X] && refLike(x.Type()) {
+							changed = mark(x, derived) || changed
+						}
+						if ia, isIA := x.X.(*ssa.IndexAddr); isIA && isN(ia.X) && refLike(x.Type()) {
+							changed = mark(x, shallow) || changed
+						}
 						if shallowCells[rootCell(x.X)] && !cells[rootCell(x.X)] && refLike(x.Type()) {
 							changed = mark(x, shallow) || changed
 						}
 					}
 				case *ssa.Phi:
+					anyN, allN := false, true
 					for _, e := range x.Edges {
 						if isD(e) {
 							changed = mark(x, derived) || changed
@@ -344,6 +375,17 @@ func (m *MutAnalysis) Mutations(fn *ssa.Function, seeds []ssa.Value, chain []str
 						if shallow[e] {
 							changed = mark(x, shallow) || changed
 						}
+						if nested[e] {
+							anyN = true
+						} else if cst, isC := e.(*ssa.Const); !(isC && cst.IsNil()) && e != ssa.Value(x) {
+							allN = false
+						}
+					}
+					if anyN && allN {
+						changed = mark(x, nested) || changed
+					} else if anyN {
+						// joined with a container the analysis knows nothing about: fall back to the coarser class
+						changed = mark(x, shallow) || changed
 					}
 				case *ssa.Range:
 					if isD(x.X) || shallow[x.X] {
@@ -364,7 +406,7 @@ func (m *MutAnalysis) Mutations(fn *ssa.Function, seeds []ssa.Value, chain []str
 								changed = true
 							}
 						}
-					} else if shallow[x.Val] {
+					} else if shallow[x.Val] || nested[x.Val] {
 						if _, isAlloc := rootCell(x.Addr).(*ssa.Alloc); isAlloc {
 							if !shallowCells[x.Addr] {
 								shallowCells[x.Addr] = true
@@ -383,6 +425,25 @@ func (m *MutAnalysis) Mutations(fn *ssa.Function, seeds []ssa.Value, chain []str
 						continue
 					}
 					if b, ok := com.Value.(*ssa.Builtin); ok {
+						if b.Name() == "append" && len(com.Args) > 0 && isN(com.Args[0]) {
+							// elements appended to it: fresh ones keep the class, anything else makes it coarser
+							keep := len(com.Args) == 1
+							if len(com.Args) == 2 {
+								if sl, isSl := com.Args[1].(*ssa.Slice); isSl {
+									if a, isA := sl.X.(*ssa.Alloc); isA && !cells[a] {
+										keep = true // new elements that are not derived (shallow ones included)
+									}
+								}
+								if isN(com.Args[1]) {
+									keep = true
+								}
+							}
+							if keep {
+								changed = mark(x, nested) || changed
+							} else {
+								changed = mark(x, shallow) || changed
+							}
+						}
 						if b.Name() == "append" && len(com.Args) > 0 && (isD(com.Args[0]) || shallow[com.Args[0]]) {
 							// the result may share the backing array
 							if isD(com.Args[0]) {
@@ -401,7 +462,7 @@ func (m *MutAnalysis) Mutations(fn *ssa.Function, seeds []ssa.Value, chain []str
 					name := fullName(callee)
 					anyD := false
 					for _, a := range com.Args {
-						if isD(a) || shallow[a] {
+						if isD(a) || shallow[a] || nested[a] {
 							anyD = true
 						}
 					}
@@ -419,7 +480,10 @@ func (m *MutAnalysis) Mutations(fn *ssa.Function, seeds []ssa.Value, chain []str
 						}
 					default:
 						if refLike(x.Type()) {
-							if m.returnsFresh(callee) {
+							if m.returnsFresh(callee) && m.elemsFresh(callee) {
+								// a fresh slice of fresh containers
+								changed = mark(x, nested) || changed
+							} else if m.returnsFresh(callee) {
 								// fresh container(s); contents may still reference caller memory
 								changed = mark(x, shallow) || changed
 							} else if src, known := m.resultSources(callee); known {
@@ -430,7 +494,7 @@ func (m *MutAnalysis) Mutations(fn *ssa.Function, seeds []ssa.Value, chain []str
 									if src[i] && isD(a) {
 										fromD = true
 									}
-									if src[i] && shallow[a] {
+									if src[i] && (shallow[a] || nested[a]) {
 										fromS = true
 									}
 								}
@@ -640,6 +704,9 @@ func (m *MutAnalysis) mutationsViaCells(fn *ssa.Function, cellSeeds []ssa.Value,
 	return m.Mutations(fn, seeds, chain)
 }
 
+// ReturnsFresh is returnsFresh for rules.
+func (m *MutAnalysis) ReturnsFresh(fn *ssa.Function) bool { return m.returnsFresh(fn) }
+
 // returnsFresh reports whether every reference-like result of fn is, on
 // every return, a container allocated inside fn (make, composite literal,
 // append to such) or nil.
@@ -647,48 +714,7 @@ func (m *MutAnalysis) returnsFresh(fn *ssa.Function) bool {
 	if fn == nil || len(fn.Blocks) == 0 {
 		return false
 	}
-	var fresh func(v ssa.Value, seen map[ssa.Value]bool) bool
-	fresh = func(v ssa.Value, seen map[ssa.Value]bool) bool {
-		if seen[v] {
-			return true
-		}
-		seen[v] = true
-		switch x := v.(type) {
-		case *ssa.Const:
-			return true
-		case *ssa.MakeMap, *ssa.MakeSlice, *ssa.Alloc, *ssa.MakeChan:
-			return true
-		case *ssa.MakeInterface:
-			return fresh(x.X, seen)
-		case *ssa.ChangeType:
-			return fresh(x.X, seen)
-		case *ssa.Slice:
-			return fresh(x.X, seen)
-		case *ssa.Phi:
-			for _, e := range x.Edges {
-				if !fresh(e, seen) {
-					return false
-				}
-			}
-			return true
-		case *ssa.Call:
-			if b, ok := x.Common().Value.(*ssa.Builtin); ok && b.Name() == "append" {
-				return fresh(x.Common().Args[0], seen)
-			}
-			if c := x.Common().StaticCallee(); c != nil && c != fn && m.inModule(c) {
-				return m.returnsFresh(c)
-			}
-			return false
-		case *ssa.Extract:
-			if call, ok := x.Tuple.(*ssa.Call); ok {
-				if c := call.Common().StaticCallee(); c != nil && c != fn && m.inModule(c) {
-					return m.returnsFresh(c)
-				}
-			}
-			return false
-		}
-		return false
-	}
+	fresh := func(v ssa.Value, seen map[ssa.Value]bool) bool { return m.freshValue(fn, v, seen) }
 	for _, b := range fn.Blocks {
 		for _, ins := range b.Instrs {
 			ret, ok := ins.(*ssa.Return)
@@ -703,6 +729,9 @@ func (m *MutAnalysis) returnsFresh(fn *ssa.Function) bool {
 					continue
 				}
 				if !fresh(r, map[ssa.Value]bool{}) {
+					if os.Getenv("PDFVERIF_DEBUG_MUT") != "" {
+						fmt.Fprintf(os.Stderr, "MUT returnsFresh(%s) fails on %s = %v (%T)\n", fn.Name(), r.Name(), r, r)
+					}
 					return false
 				}
 			}
@@ -926,4 +955,193 @@ func (m *MutAnalysis) fieldOnlyFresh(fa *ssa.FieldAddr) bool {
 	}
 	m.freshMemo[key] = res && seenStore
 	return res && seenStore
+}
+
+// freshValue: v (a value of fn) is storage allocated inside fn or by a
+// function of the module that returns such storage, or nil.
+func (m *MutAnalysis) freshValue(fn *ssa.Function, v ssa.Value, seen map[ssa.Value]bool) bool {
+	fresh := func(v ssa.Value, seen map[ssa.Value]bool) bool { return m.freshValue(fn, v, seen) }
+	{
+		if seen[v] {
+			return true
+		}
+		seen[v] = true
+		switch x := v.(type) {
+		case *ssa.Const:
+			return true
+		case *ssa.MakeMap, *ssa.MakeSlice, *ssa.Alloc, *ssa.MakeChan:
+			return true
+		case *ssa.MakeInterface:
+			// boxing a struct, array or basic value copies it: the box is new
+			// storage whatever the value was read from
+			switch x.X.Type().Underlying().(type) {
+			case *types.Struct, *types.Array, *types.Basic:
+				return true
+			}
+			return fresh(x.X, seen)
+		case *ssa.ChangeType:
+			return fresh(x.X, seen)
+		case *ssa.ChangeInterface:
+			return fresh(x.X, seen)
+		case *ssa.Slice:
+			return fresh(x.X, seen)
+		case *ssa.Phi:
+			for _, e := range x.Edges {
+				if !fresh(e, seen) {
+					return false
+				}
+			}
+			return true
+		case *ssa.Call:
+			if b, ok := x.Common().Value.(*ssa.Builtin); ok && b.Name() == "append" {
+				return fresh(x.Common().Args[0], seen)
+			}
+			if c := x.Common().StaticCallee(); c != nil && c != fn && m.inModule(c) {
+				return m.returnsFresh(c)
+			}
+			return false
+		case *ssa.Extract:
+			if call, ok := x.Tuple.(*ssa.Call); ok {
+				if c := call.Common().StaticCallee(); c != nil && c != fn && m.inModule(c) {
+					return m.returnsFresh(c)
+				}
+			}
+			return false
+		}
+		return false
+	}
+}
+
+// elemsFresh reports whether every slice fn returns holds only elements that
+// are themselves fresh storage (the filters made by a constructor collected
+// into a new slice): what is loaded from such a slice is a fresh container
+// again, not caller memory.
+func (m *MutAnalysis) elemsFresh(fn *ssa.Function) bool {
+	if fn == nil || len(fn.Blocks) == 0 {
+		return false
+	}
+	key := fn.String()
+	if v, ok := m.elemMemo[key]; ok {
+		return v
+	}
+	if m.elemMemo == nil {
+		m.elemMemo = map[string]bool{}
+	}
+	m.elemMemo[key] = false // recursion: assume not
+	rootCell := func(v ssa.Value) ssa.Value {
+		for {
+			switch x := v.(type) {
+			case *ssa.FieldAddr:
+				v = x.X
+			case *ssa.IndexAddr:
+				v = x.X
+			default:
+				return v
+			}
+		}
+	}
+	storesInto := func(cell ssa.Value) ([]ssa.Value, bool) {
+		var vals []ssa.Value
+		for _, b := range fn.Blocks {
+			for _, ins := range b.Instrs {
+				if st, ok := ins.(*ssa.Store); ok && rootCell(st.Addr) == cell {
+					if st.Addr == cell {
+						return nil, false // the whole array is overwritten
+					}
+					vals = append(vals, st.Val)
+				}
+			}
+		}
+		return vals, true
+	}
+	var elems func(v ssa.Value, seen map[ssa.Value]bool) bool
+	elems = func(v ssa.Value, seen map[ssa.Value]bool) bool {
+		if seen[v] {
+			return true
+		}
+		seen[v] = true
+		switch x := v.(type) {
+		case *ssa.Const:
+			return x.IsNil()
+		case *ssa.Phi:
+			for _, e := range x.Edges {
+				if !elems(e, seen) {
+					return false
+				}
+			}
+			return true
+		case *ssa.ChangeType:
+			return elems(x.X, seen)
+		case *ssa.Slice:
+			if a, ok := x.X.(*ssa.Alloc); ok {
+				vals, ok := storesInto(a)
+				if !ok {
+					return false
+				}
+				for _, sv := range vals {
+					if !m.freshValue(fn, sv, map[ssa.Value]bool{}) {
+						return false
+					}
+				}
+				return true
+			}
+			return elems(x.X, seen)
+		case *ssa.MakeSlice:
+			vals, ok := storesInto(x)
+			if !ok {
+				return false
+			}
+			for _, sv := range vals {
+				if !m.freshValue(fn, sv, map[ssa.Value]bool{}) {
+					return false
+				}
+			}
+			return true
+		case *ssa.Call:
+			com := x.Common()
+			if b, ok := com.Value.(*ssa.Builtin); ok && b.Name() == "append" {
+				for _, a := range com.Args {
+					if !elems(a, seen) {
+						return false
+					}
+				}
+				return true
+			}
+			if c := com.StaticCallee(); c != nil && c != fn && m.inModule(c) {
+				return m.returnsFresh(c) && m.elemsFresh(c)
+			}
+			return false
+		case *ssa.Extract:
+			if call, ok := x.Tuple.(*ssa.Call); ok {
+				if c := call.Common().StaticCallee(); c != nil && c != fn && m.inModule(c) {
+					return m.returnsFresh(c) && m.elemsFresh(c)
+				}
+			}
+			return false
+		}
+		return false
+	}
+	found := false
+	for _, b := range fn.Blocks {
+		for _, ins := range b.Instrs {
+			ret, ok := ins.(*ssa.Return)
+			if !ok {
+				continue
+			}
+			for _, r := range ret.Results {
+				if !refLike(r.Type()) || types.Identical(r.Type(), types.Universe.Lookup("error").Type()) {
+					continue
+				}
+				if _, isSlice := r.Type().Underlying().(*types.Slice); !isSlice {
+					return false
+				}
+				found = true
+				if !elems(r, map[ssa.Value]bool{}) {
+					return false
+				}
+			}
+		}
+	}
+	m.elemMemo[key] = found
+	return found
 }
